@@ -46,6 +46,16 @@ try:
         return ok, out.stdout[-1500:]
     base = run_demo()
     a = sh("git apply %s" % patch, cwd=wt)
+    rebased = None
+    if a.returncode != 0:
+        # written against an older HEAD (before later fix commits): three-way merge, and keep
+        # the change as a patch against the current HEAD
+        a = sh("git apply -3 %s" % patch, cwd=wt)
+        if a.returncode == 0 and "with conflicts" not in (a.stderr + a.stdout):
+            rebased = sh("git diff HEAD", cwd=wt).stdout
+            meta["rebased_onto"] = sh("git rev-parse --short HEAD", cwd=wt).stdout.strip()
+        else:
+            a.returncode = 1
     meta["applies"] = a.returncode == 0
     b = sh("go build ./... 2>&1", cwd=wt)
     meta["compiles"] = b.returncode == 0
@@ -76,7 +86,12 @@ if not confirmed:
     print("NOT CONFIRMED"); print(meta.get("demo_output_with_change", "")[-600:]); print(meta.get("suite_output", "")[-600:])
     sys.exit(1)
 # run our checks against it
-r = sh("python3 /verif/tools/try_seed.py %s %s" % (patch, " ".join(checks)))
+patch_for_try = patch
+if rebased:
+    os.makedirs("/verif/.work", exist_ok=True)
+    patch_for_try = "/verif/.work/rebased-%s-%s.diff" % (prop, k)
+    open(patch_for_try, "w").write(rebased)
+r = sh("python3 /verif/tools/try_seed.py %s %s" % (patch_for_try, " ".join(checks)))
 print(r.stdout[-1500:])
 try:
     ran = json.loads(r.stdout.strip().split("\n")[-1])
@@ -87,7 +102,11 @@ meta["detected_by"] = [p for p, v in ran.items() if isinstance(v, dict) and v.ge
 readme = os.path.join(src, "README.md")
 dst = "/verif/seeded/%s-%s%s" % (prop, tag, k)
 os.makedirs(dst, exist_ok=True)
-shutil.copy(patch, os.path.join(dst, "patch.diff"))
+if rebased:
+    shutil.copy(patch, os.path.join(dst, "patch.orig.diff"))
+    open(os.path.join(dst, "patch.diff"), "w").write(rebased)
+else:
+    shutil.copy(patch, os.path.join(dst, "patch.diff"))
 if demo:
     shutil.copy(os.path.join(src, demo), os.path.join(dst, demo + ".txt"))   # .txt: not compiled by anything under /verif
 if os.path.exists(readme):
